@@ -48,7 +48,7 @@ theorem handle_get_eq (v : Variant) (d : Deps) (reg : Registry) (req : Req) (hm 
       else match reg.procs.find? (·.claims (decodedPath req.path)) with
         | none => encode v reg.compress req.acceptEnc r404
         | some p =>
-          match p.panics v (decodedPath req.path) with
+          match p.panics v d req.path (decodedPath req.path) (params req) with
           | some s => .panic s
           | none => encode v reg.compress req.acceptEnc
                       (respOf (p.malformed d req.path (decodedPath req.path) (params req))) := by
@@ -66,7 +66,7 @@ theorem handle_get_eq (v : Variant) (d : Deps) (reg : Registry) (req : Req) (hm 
     | none => simp
     | some p =>
       simp only [if_false, false_or]
-      generalize Proc.panics v (decodedPath req.path) p = o
+      generalize Proc.panics v d req.path (decodedPath req.path) _ p = o
       cases o <;> rfl
 
 /-! ### Clause "405 for non-GET" — holds for the code as written -/
@@ -78,7 +78,7 @@ theorem C12_non_get_405 (v : Variant) (d : Deps) (reg : Registry) (req : Req)
     (hm : req.method = .other) : handle v d reg req = .ok r405 := by
   unfold handle; simp [hm]
 
-example : handle asWritten ⟨fun _ => .err, fun _ => false, fun _ => false, fun _ => .missing⟩
+example : handle asWritten ⟨fun _ => .err, fun _ => .err, fun _ => .err, fun _ => .missing⟩
     ⟨true, [.graph true]⟩ ⟨.other, sGraph, none, some [255]⟩ = .ok r405 := by decide
 
 /-! ### Clause "no request can panic a handler" -/
@@ -87,15 +87,63 @@ example : handle asWritten ⟨fun _ => .err, fun _ => false, fun _ => false, fun
 def C12_no_panic_full : Prop :=
   ∀ (d : Deps) (reg : Registry) (req : Req), ∃ r, handle asWritten d reg req = .ok r
 
+/-- The parsers of inetnum / routecore return `Ok` or `Err` for every string (they do not panic
+    themselves). False of inetnum 0.1.1's `Asn::from_str`, see `C12_panic_witness_dependency`. -/
+def depsNeverPanic (d : Deps) : Prop := ∀ b, d.asn b ≠ .panic ∧ d.community b ≠ .panic
+
+theorem firstBad_ne_panic (l : List PRes) (h : ∀ r ∈ l, r ≠ .panic) : firstBad l ≠ .panic := by
+  induction l with
+  | nil => simp [firstBad]
+  | cons r l ih =>
+    cases r with
+    | ok => simp only [firstBad]; exact ih (fun r hr => h r (List.mem_cons_of_mem _ hr))
+    | err => simp [firstBad]
+    | panic => exact absurd rfl (h .panic List.mem_cons_self)
+
+theorem filtersRes_ne_panic (d : Deps) (hd : depsNeverPanic d) (needle : Bytes) (ps : List Param) :
+    filtersRes d needle ps ≠ .panic := by
+  unfold filtersRes
+  apply firstBad_ne_panic
+  intro r hr
+  rw [List.mem_flatMap] at hr
+  obtain ⟨m, _, hm⟩ := hr
+  cases m with
+  | exact v => simp [filterSeq] at hm; rw [hm]; simp
+  | family f v =>
+    simp only [filterSeq] at hm
+    split at hm
+    · rw [List.mem_map] at hm
+      obtain ⟨b, _, rfl⟩ := hm
+      exact (hd b).1
+    · split at hm
+      · simp at hm; rw [hm]; exact (hd v).1
+      · split at hm
+        · simp at hm; rw [hm]; exact (hd v).2
+        · simp at hm; rw [hm]; simp
+
+theorem ribPrefixDepPanics_false (d : Deps) (hd : depsNeverPanic d) (v4min v6min : Nat) (suffix : Bytes)
+    (ps : List Param) : ribPrefixDepPanics d v4min v6min suffix ps = false := by
+  unfold ribPrefixDepPanics
+  cases d.pfx suffix with
+  | err => rfl
+  | ok v4 len =>
+    have h1 := filtersRes_ne_panic d hd sSelect ps
+    have h2 := filtersRes_ne_panic d hd sDiscard ps
+    have e1 : (filtersRes d sSelect ps == .panic) = false := by simpa using h1
+    have e2 : (filtersRes d sDiscard ps == .panic) = false := by simpa using h2
+    simp [e1, e2]
+
 /-- **C12 (no panic), any variant, under explicit guards.** A defect site is harmless if it is
     repaired *or* its guard holds:
     * `Accept-Encoding`: compression off, or no header, or every header byte visible ASCII/tab;
     * `/status/graph…/traces/`: byte 8 after `/status/graph` is a character boundary;
-    * empty graph: the registry's graph processor has a link report to draw. -/
+    * empty graph: the registry's graph processor has a link report to draw;
+    * dependency: the ASN / community parsers do not panic themselves. -/
 theorem C12_no_panic (v : Variant) (d : Deps) (reg : Registry) (req : Req)
     (hae : v.aeUnwrap = false ∨ reg.compress = false ∨ aeReadable req.acceptEnc = true)
     (hsplit : v.graphSplit = false ∨ graphSplitSafe req = true)
-    (hempty : v.graphEmpty = false ∨ Proc.graph true ∉ reg.procs) :
+    (hempty : v.graphEmpty = false ∨ Proc.graph true ∉ reg.procs)
+    (hdep : v.depPanic = false ∨ depsNeverPanic d) :
     ∃ r, handle v d reg req = .ok r := by
   cases hm : req.method with
   | other => exact ⟨r405, C12_non_get_405 v d reg req hm⟩
@@ -113,7 +161,7 @@ theorem C12_no_panic (v : Variant) (d : Deps) (reg : Registry) (req : Req)
       · exact henc _
       · rename_i p hp
         have hmem : p ∈ reg.procs := List.mem_of_find?_eq_some hp
-        have hnone : p.panics v (decodedPath req.path) = none := by
+        have hnone : p.panics v d req.path (decodedPath req.path) (params req) = none := by
           cases p with
           | graph empty =>
             simp only [Proc.panics]
@@ -131,30 +179,40 @@ theorem C12_no_panic (v : Variant) (d : Deps) (reg : Registry) (req : Req)
                 | true => exact absurd hmem h
             simp [h1, h2]
           | tracer => rfl
-          | rib _ _ _ => rfl
+          | rib base v4min v6min =>
+            simp only [Proc.panics]
+            have : (v.depPanic && decide (countByte 47 req.path + 1 ≠ 3)
+                && ribPrefixDepPanics d v4min v6min ((stripPrefix (decodedPath req.path) base).getD []) (params req)) = false := by
+              rcases hdep with h | h
+              · simp [h]
+              · simp [ribPrefixDepPanics_false d h]
+            rw [this]
+            rfl
           | mrt _ _ => rfl
           | routerList _ => rfl
           | dead => rfl
         rw [hnone]
         exact henc _
 
-/-- **C12 (no panic), repaired code:** full strength, no guard. -/
+/-- **C12 (no panic), repaired code:** full strength, no guard — for every behaviour of the
+    dependencies, including parsers that panic themselves. -/
 theorem C12_no_panic_repaired (d : Deps) (reg : Registry) (req : Req) :
     ∃ r, handle repaired d reg req = .ok r :=
-  C12_no_panic repaired d reg req (Or.inl rfl) (Or.inl rfl) (Or.inl rfl)
+  C12_no_panic repaired d reg req (Or.inl rfl) (Or.inl rfl) (Or.inl rfl) (Or.inl rfl)
 
-/-- **C12 (no panic), code as written, partial:** exactly the three guarded situations are excluded. -/
+/-- **C12 (no panic), code as written, partial:** exactly the four guarded situations are excluded. -/
 theorem C12_no_panic_partial (d : Deps) (reg : Registry) (req : Req)
     (hae : reg.compress = false ∨ aeReadable req.acceptEnc = true)
-    (hsplit : graphSplitSafe req = true) (hempty : Proc.graph true ∉ reg.procs) :
+    (hsplit : graphSplitSafe req = true) (hempty : Proc.graph true ∉ reg.procs)
+    (hdep : depsNeverPanic d) :
     ∃ r, handle asWritten d reg req = .ok r :=
-  C12_no_panic asWritten d reg req (Or.inr hae) (Or.inr hsplit) (Or.inr hempty)
+  C12_no_panic asWritten d reg req (Or.inr hae) (Or.inr hsplit) (Or.inr hempty) (Or.inr hdep)
 
 /-- the guards are satisfiable by a non-trivial request (and violated by the witnesses below) -/
 example : aeReadable (some sGzip) = true ∧ graphSplitSafe ⟨.get, sGraph ++ sTracesSeg ++ [55], none, none⟩ = true
     ∧ Proc.graph true ∉ [Proc.tracer, .graph false] := by decide
 
-def deps0 : Deps := ⟨fun _ => .err, fun _ => false, fun _ => false, fun _ => .missing⟩
+def deps0 : Deps := ⟨fun _ => .err, fun _ => .err, fun _ => .err, fun _ => .missing⟩
 
 /-- `GET /status` with `Accept-Encoding: \xffg`, compression on (the default build and default
     configuration): `v.to_str().unwrap()` at `http.rs:261`. Replayed first by the engine. -/
@@ -174,6 +232,18 @@ theorem C12_panic_witness_graph_split :
 theorem C12_panic_witness_graph_empty :
     handle asWritten deps0 ⟨false, [.tracer, .graph true]⟩ ⟨.get, sGraph, none, none⟩
       = .panic .graphEmpty := by decide
+
+/-- `GET /p/1/8?select[peer_as]=a%C3%A9` against a RIB at `/p/`, with the dependency behaving as
+    inetnum 0.1.1 does on `"aé"` (`Asn::from_str` slices `s[..2]` inside `é` and panics): the
+    handler panics, because `extract_filter_kind` hands the decoded parameter value over unchecked. -/
+theorem C12_panic_witness_dependency :
+    handle asWritten
+      ⟨fun s => if s = [49, 47, 56] then .ok true 8 else .err,
+       fun s => if s = [97, 195, 169] then .panic else .err, fun _ => .err, fun _ => .missing⟩
+      ⟨false, [.tracer, .graph false, .rib [47, 112, 47] 8 19]⟩
+      ⟨.get, [47, 112, 47, 49, 47, 56],
+       some [115, 101, 108, 101, 99, 116, 91, 112, 101, 101, 114, 95, 97, 115, 93, 61, 97, 37, 67, 51, 37, 65, 57], none⟩
+      = .panic .depFromStr := by decide
 
 theorem C12_no_panic_counterexample : ¬ C12_no_panic_full := by
   intro h
@@ -271,7 +341,7 @@ theorem C12_malformed_prefix_400 (v : Variant) (d : Deps) (reg : Registry) (req 
 /-- non-vacuity: a well-formed and a malformed prefix query against a realistic registry -/
 example :
     let reg : Registry := ⟨true, [.tracer, .graph false, .rib [47, 112, 47] 8 19]⟩
-    let d : Deps := ⟨fun s => if s = [49, 47, 56] then .ok true 8 else .err, fun _ => false, fun _ => false, fun _ => .missing⟩
+    let d : Deps := ⟨fun s => if s = [49, 47, 56] then .ok true 8 else .err, fun _ => .err, fun _ => .err, fun _ => .missing⟩
     handle asWritten d reg ⟨.get, [47, 112, 47, 49, 47, 56], none, none⟩ = .ok r200
     ∧ handle asWritten d reg ⟨.get, [47, 112, 47, 49, 47, 57], none, some sGzip⟩ = .ok ⟨400, true, true⟩
     ∧ handle asWritten d reg ⟨.get, [47, 112, 47, 49, 47, 56], some [120, 61, 49], none⟩ = .ok r400
